@@ -155,8 +155,10 @@ type pausingTokRepo struct {
 	p     *tokPauser
 }
 
-func (r *pausingTokRepo) AddTokenToDatabase(t *domains.Token) error { return r.inner.AddTokenToDatabase(t) }
-func (r *pausingTokRepo) DeleteToken(t string) error                { return r.inner.DeleteToken(t) }
+func (r *pausingTokRepo) AddTokenToDatabase(t *domains.Token) error {
+	return r.inner.AddTokenToDatabase(t)
+}
+func (r *pausingTokRepo) DeleteToken(t string) error { return r.inner.DeleteToken(t) }
 func (r *pausingTokRepo) GetTokenByValue(tok string) (*domains.Token, error) {
 	t, err := r.inner.GetTokenByValue(tok)
 	r.p.mu.Lock()
